@@ -147,10 +147,15 @@ def real_mutation(mj):
     if t == 'AddField':
         kw = {k: json.loads(v) for k, v in mj['attrs']}
         init = None if mj.get('initial') is None else json.loads(mj['initial'])
+        if mj.get('initial_sql') is not None:
+            # a callable initial value: its string result is SQL to embed as it is
+            init = (lambda text: (lambda: text))(mj['initial_sql'])
         return M.AddField(mj['model'], mj['field'], ftype_cls(mj['ftype']), initial=init, **kw)
     if t == 'ChangeField':
         kw = {k: json.loads(v) for k, v in mj['attrs']}
         init = None if mj.get('initial') is None else json.loads(mj['initial'])
+        if mj.get('initial_sql') is not None:
+            init = (lambda text: (lambda: text))(mj['initial_sql'])
         ft = ftype_cls(mj['ftype']) if mj.get('ftype') else None
         return M.ChangeField(mj['model'], mj['field'], field_type=ft, initial=init, **kw)
     if t == 'DeleteField':
